@@ -57,6 +57,22 @@ CHECKS = {
          "Exploration over generated messages built through public API from protocol-valid values; every written document is additionally parsed by expat and its element order, attribute values and text compared with an independent model of the message.",
          "python3 with expat must be present (absent => exit 2, inconclusive); publication PDUs with tag None and ErrorReply::empty() are outside the protocol-valid domain and only take part in the idempotence relation / are excluded.",
          "DESIGN.md §3 C11"),
+ "C02": ("differential PBT in both directions: signed objects assembled by an independent RFC 5652/6488 DER writer (der.rs; content types of 1-40 octets so the signed-attribute set crosses 127/128 octets; open encoding choices varied) must be accepted iff digest, signature, sid, EE certificate and resource coverage hold; every library-built object is verified by the harness' own CMS verifier; 12 kinds of single-point tampering must be rejected",
+         "Exploration over generated generic objects, ROAs, ASPAs and manifests from the independent writer and from the library builders, with EE resources / prefixes / customer AS drawn relative to each other (interval model), evaluation times on the validity edges, CRL callback verdicts; at most one violated condition per case so the iff is decided condition by condition.",
+         "RSA-SHA256 and SHA-256 from aws-lc-rs are trusted (used directly, not through the library); tampering is confined to signed bytes / the signature value; der.rs has its own self-check sub-check.",
+         "DESIGN.md §3 C02"),
+ "C04": ("structure-aware mutation PBT (TLV tree mutations of valid seeds of all 15 entry points, strict and relaxed; every proper prefix of every seed; re-signed protocol messages with mutated CRLs; random bytes) with an accessor-walk oracle (every getter / iterator / validation / re-encoding under a panic guard) and a counting-allocator bound + coverage-guided libFuzzer target der_decoders with a DER-aware custom mutator and the same oracle",
+         "Exploration: any panic in a decoder or in any accessor of a decoded value is a violation; allocation calls and peak live bytes per input are bounded by a linear function of the input length (deterministic proxy for 'no run-away'); the quick tier also replays the committed corpus and runs a fixed-work libFuzzer burst, the thorough tier a 16-job campaign.",
+         "CPU-only super-linear behaviour without allocation is only seen by the watchdog (exit 2); stack overflows / aborts are isolated by the driver's journal mode; the walk validates against test-data/ta.cer only.",
+         "DESIGN.md §3 C04"),
+ "C10": ("differential PBT: messages created by the library (every evaluation-time position, right key and 7 other keys, bit flips) and messages assembled by the independent DER writer (EE identity certificate and CRL variants, 0-4 extra signed attributes so the set spans 100-700 octets, at most one violated condition) against the accept-iff oracle; own CMS verifier for library-created messages; ProvisioningCms/PublicationCms create-decode-validate",
+         "Exploration with one fault kind per case (13 kinds: digest, signature, sid, EE signer, EE window, EE is CA, CRL signer, CRL window, EE revoked, ...) so that each conjunct of the iff is exercised in both directions.",
+         "RSA/SHA from aws-lc-rs trusted; the created/protocol sub-checks read the wall clock only as the base of validity windows with margins of minutes; AKI/SKI mismatch cases are not generated (not named in the statement).",
+         "DESIGN.md §3 C10"),
+ "C14": ("PBT with manifests assembled by the independent DER writer (0-300 entries, ~60 hostile file-name shapes, hash bit strings of 0-64 octets with unused bits, both time orders/types) against the reference predicate ^[A-Za-z0-9_-]+\\.[A-Za-z]{3}$ + exhaustive enumeration of all names of length 0-5 over a 9-character alphabet",
+         "Exploration plus complete enumeration of short names: decode succeeds iff every name matches and thisUpdate <= nextUpdate; on success len/iter/iter_uris/hash verification are checked against what was encoded (URIs re-parse, lie directly inside the base directory).",
+         "Manifest::decode does not verify signatures, so the wrapper carries a constant signature value; with UTCTime manifest times only 'accepted => names valid and this <= next' is asserted.",
+         "DESIGN.md §3 C14"),
 }
 PENDING = {}
 ALL = ["C%02d" % i for i in range(1, 18)]
@@ -91,6 +107,8 @@ def main():
             "add_only": True,
         },
         "engines": [
+            {"name": "libfuzzer", "path": "/verif/fuzz", "serves_properties": ["C04", "C07", "C09", "C11"],
+             "kind_free_text": "cargo-fuzz 0.13 / libFuzzer targets der_decoders (C04, DER-aware custom mutator, accessor-walk + allocation oracle), rtr_stream (C07), xml_parsers (C09, C11; parse-write-parse round trip inside the target); ./check runs fuzz/run.sh first (strict replay of corpus/ and regress/fuzz-*, then a fixed-work burst in quick or a 16-job campaign in thorough) and merges its summary into the evidence"},
             {"name": "vcheck", "path": "/verif/harness", "serves_properties": [c["property_id"] for c in checks],
              "kind_free_text": "proptest 1.11 TestRunner driven from a binary (seeded ChaCha, 16 shards, shrinking, JSON replay files) plus complete enumeration of small finite domains; explicit reference-model / round-trip / metamorphic oracles per property"},
         ],
